@@ -1,4 +1,652 @@
-//! C12 monitor (not written yet).
-use crate::ctx::Ctx;
+//! C12 — printing an interface as .did text and re-checking it yields an equal interface.
+//!
+//! Workload: programs from `crate::prog` (text from OUR printer) -> candid's parser and checker.
+//! Oracle: the model of the SOURCE program (`prog::to_model`, computed from our AST by the spec's
+//! desugaring rules). Each of candid's two printers must produce text that parses and checks
+//! again, and the re-checked definitions (matched by name), init args and service must be
+//! structurally equal (greatest-fixed-point bisimulation `requal`) to that model.
+use crate::conv::FromCandid;
+use crate::ctx::{catch, Ctx};
+use crate::model::misc::label_hash;
+use crate::model::subtype::requal;
+use crate::model::{Mode, REnv, RType};
+use crate::prog::*;
+use crate::rng::{hash_str, Rng};
+use candid::types::internal::TypeContainer;
+use candid::types::{Type, TypeEnv};
+use candid_parser::syntax::{pretty_print, IDLMergedProg};
+use candid_parser::utils::{service_equal, CandidSource};
+use serde_json::json;
 
-pub fn run(_ctx: &mut Ctx) {}
+fn clip(s: &str) -> String {
+    if s.len() > 6000 {
+        let mut end = 6000;
+        while !s.is_char_boundary(end) {
+            end -= 1;
+        }
+        format!("{}…(+{} bytes)", &s[..end], s.len() - end)
+    } else {
+        s.to_string()
+    }
+}
+
+/// A hint about which delicate name class the program contains, to keep signatures of
+/// "same text shape, different meaning" findings apart.
+fn name_hint(feats: &std::collections::BTreeSet<&'static str>) -> &'static str {
+    if feats.contains("name:nul+hexdigit") {
+        "names=NUL+hexdigit"
+    } else if feats.contains("name:nul") {
+        "names=NUL"
+    } else if feats.contains("name:control-char") {
+        "names=control-char"
+    } else if feats.contains("name:needs-escape") {
+        "names=quote/backslash"
+    } else if feats.contains("name:non-ascii") {
+        "names=non-ascii"
+    } else if feats.contains("name:non-identifier") {
+        "names=quoted"
+    } else {
+        "names=plain"
+    }
+}
+
+/// Stable class of a re-parse failure: the offending token/escape, not its position.
+fn reparse_class(e: &CheckErr) -> String {
+    let m = e.message();
+    if m.contains("Unrecognized token `Boolean(") {
+        "name-true/false-printed-unquoted".into()
+    } else if m.contains("Unknown escape character 0") {
+        "NUL-printed-as-backslash-0".into()
+    } else {
+        e.class()
+    }
+}
+
+/// Judge one printed text against the model. Returns the violation (signature tail, explanation).
+fn judge_printed(pm: &ProgModel, original: &str, printed: &str, has_actor: bool, check_equal: bool) -> Option<(String, String)> {
+    match parse_check(printed) {
+        Err(e) => Some((
+            format!("reparse-fails|{}", reparse_class(&e)),
+            format!("printed text is rejected at stage {}: {}", e.stage(), e.message().lines().next().unwrap_or("")),
+        )),
+        Ok((env2, actor2, _)) => {
+            if let Some(d) = diff_model(pm, &env2, &actor2) {
+                let kind = d.split('|').next().unwrap_or("differs").to_string();
+                return Some((kind, format!("re-checked interface differs from the source program: {d}")));
+            }
+            if has_actor && check_equal {
+                // candid's own structural equality must agree
+                match catch(|| service_equal(CandidSource::Text(original), CandidSource::Text(printed))) {
+                    Err(p) => {
+                        return Some((
+                            format!("service_equal-panics|{}", stable_location(&p.location)),
+                            format!("service_equal panicked: {}", p.message),
+                        ))
+                    }
+                    Ok(Err(e)) => {
+                        return Some((
+                            format!("service_equal-rejects|{}", crate::mon::common::err_class(&e)),
+                            format!(
+                                "model: interfaces equal; service_equal(original, printed) = Err({})",
+                                e.to_string().lines().next().unwrap_or("")
+                            ),
+                        ))
+                    }
+                    Ok(Ok(())) => {}
+                }
+            }
+            None
+        }
+    }
+}
+
+fn sig_of(printer: &str, sig: &str, hint: &str) -> String {
+    if sig.starts_with("reparse-fails|name-true/false") || sig.starts_with("reparse-fails|NUL-") {
+        format!("{printer}|{sig}")
+    } else if hint == "names=NUL+hexdigit" {
+        // `"\u{0}1"` is printed as `"\01"`, which the lexer reads as the byte 0x01: the text parses but means
+        // another name (or collides with one). One defect, whatever part of the interface it lands in.
+        format!("{printer}|NUL+hexdigit-printed-as-byte-escape")
+    } else {
+        format!("{printer}|{sig}|{hint}")
+    }
+}
+
+pub fn one_program(ctx: &mut Ctx, rng: &mut Rng, cfg: &ProgCfg) {
+    let p = gen_prog(rng, cfg);
+    let pm = to_model(&p);
+    let pc = PrintCfg::random(rng);
+    let text = print_prog(&p, &pc, rng);
+    let feats = features(&p);
+    for f in &feats {
+        ctx.count(&format!("cover:{f}"));
+    }
+    let (rec, mutual) = recursion(&pm);
+    if rec {
+        ctx.count("cover:recursive-def");
+    }
+    if mutual {
+        ctx.count("cover:mutually-recursive-defs");
+    }
+    let hint = name_hint(&feats);
+    let (env, actor, ast) = match parse_check(&text) {
+        Ok(x) => x,
+        Err(e) => {
+            // acceptance of well-formed programs is C14's business
+            ctx.count(&format!("excluded:source-rejected:{}", e.stage()));
+            return;
+        }
+    };
+    let check_equal = rng.chance(1, 2);
+    let input = |printed: &str| {
+        json!({
+            "source": clip(&text),
+            "source_plain_layout": clip(&plain(&p)),
+            "printed": clip(printed),
+        })
+    };
+    if let Some(d) = diff_model(&pm, &env, &actor) {
+        // not a printing problem: the checker's reading of the source differs from the spec's
+        let kind = d.split('|').next().unwrap_or("differs").to_string();
+        ctx.violation(
+            &format!("source-check|{kind}|{hint}"),
+            &format!("check_prog's environment differs from the spec reading of the source: {d}"),
+            input(""),
+        );
+        return;
+    }
+    ctx.count("checked:programs");
+    // (a) type-level printer
+    match catch(|| candid::pretty::candid::compile(&env, &actor)) {
+        Err(pn) => ctx.violation(
+            &format!("compile|panic|{}", stable_location(&pn.location)),
+            &format!("pretty::candid::compile panicked: {}", pn.message),
+            input(""),
+        ),
+        Ok(t1) => {
+            let again = candid::pretty::candid::compile(&env, &actor);
+            if again != t1 {
+                ctx.violation("compile|nondeterministic", "two calls gave different text", input(&t1));
+            }
+            match judge_printed(&pm, &text, &t1, actor.is_some(), check_equal) {
+                Some((sig, what)) => ctx.violation(&sig_of("compile", &sig, hint), &what, input(&t1)),
+                None => ctx.count("agree:compile"),
+            }
+        }
+    }
+    // (b) syntax-tree printer
+    let merged = IDLMergedProg::new(ast);
+    match catch(|| pretty_print(&merged)) {
+        Err(pn) => ctx.violation(
+            &format!("pretty_print|panic|{}", stable_location(&pn.location)),
+            &format!("syntax::pretty_print panicked: {}", pn.message),
+            input(""),
+        ),
+        Ok(t2) => {
+            let again = pretty_print(&merged);
+            if again != t2 {
+                ctx.violation("pretty_print|nondeterministic", "two calls gave different text", input(&t2));
+            }
+            match judge_printed(&pm, &text, &t2, actor.is_some(), check_equal) {
+                Some((sig, what)) => ctx.violation(&sig_of("pretty_print", &sig, hint), &what, input(&t2)),
+                None => ctx.count("agree:pretty_print"),
+            }
+        }
+    }
+    ctx.nontrivial(shape_hash(&pm) ^ hash_str(hint));
+    ctx.sample(|| json!({"source": clip(&text)}));
+}
+
+// ------------------------------------------------------------------------------------------
+// (e) environments exported from Rust types
+
+#[allow(dead_code)]
+mod rust_types {
+    use candid::{CandidType, Int, Nat, Principal, Reserved};
+    #[derive(CandidType)]
+    pub struct Point {
+        pub x: i32,
+        pub y: i32,
+    }
+    #[derive(CandidType)]
+    pub enum Color {
+        Red,
+        Green,
+        Blue(u8),
+        Custom { r: u8, g: u8 },
+        Pair(u8, bool),
+    }
+    #[derive(CandidType)]
+    pub struct Wrapper<T> {
+        pub inner: T,
+        pub tag: String,
+    }
+    #[derive(CandidType)]
+    pub struct Both {
+        pub a: Wrapper<u8>,
+        pub b: Wrapper<String>,
+        pub c: Wrapper<u8>,
+    }
+    pub mod m1 {
+        #[derive(candid::CandidType)]
+        pub struct Item {
+            pub id: u32,
+        }
+    }
+    pub mod m2 {
+        #[derive(candid::CandidType)]
+        pub struct Item {
+            pub name: String,
+        }
+    }
+    #[derive(CandidType)]
+    pub struct Items {
+        pub a: m1::Item,
+        pub b: m2::Item,
+        pub v: Vec<m1::Item>,
+    }
+    #[derive(CandidType)]
+    pub struct List {
+        pub head: i64,
+        pub tail: Option<Box<List>>,
+    }
+    #[derive(CandidType)]
+    pub struct A {
+        pub b: Option<Box<B>>,
+    }
+    #[derive(CandidType)]
+    pub struct B {
+        pub a: Vec<A>,
+        pub n: Nat,
+    }
+    #[derive(CandidType)]
+    pub struct Nest {
+        pub o: Option<Option<Vec<Option<u16>>>>,
+        pub v: Vec<Vec<bool>>,
+    }
+    #[derive(CandidType)]
+    pub struct Tup(pub (u8, String), pub (Int, (bool, f64)));
+    #[derive(CandidType)]
+    pub enum Tree {
+        Leaf(Nat),
+        Node(Box<Tree>, Box<Tree>),
+    }
+    #[derive(CandidType, serde::Deserialize)]
+    pub struct Kw {
+        #[serde(rename = "record")]
+        pub a: u8,
+        #[serde(rename = "service")]
+        pub b: u16,
+        #[serde(rename = "with space")]
+        pub c: u32,
+        #[serde(rename = "quo\"te\\")]
+        pub d: u64,
+        #[serde(rename = "nat")]
+        pub e: Nat,
+    }
+    #[derive(CandidType, serde::Deserialize)]
+    pub struct KwBool {
+        #[serde(rename = "true")]
+        pub t: bool,
+        #[serde(rename = "false")]
+        pub f: bool,
+    }
+    #[derive(CandidType)]
+    pub struct Misc {
+        pub p: Principal,
+        pub r: Reserved,
+        pub blob: Vec<u8>,
+        pub unit: (),
+        pub f: f32,
+        pub big: u128,
+    }
+    #[derive(CandidType)]
+    pub enum Either<L, R> {
+        Left(L),
+        Right(R),
+    }
+    #[derive(CandidType)]
+    pub struct Eithers {
+        pub x: Either<u8, String>,
+        pub y: Either<Point, Color>,
+    }
+    #[derive(CandidType)]
+    pub struct Unit {}
+    candid::define_function!(pub Callback : (Point) -> (Color) query);
+    candid::define_service!(pub Svc : {
+        "get" : candid::func!((Nat) -> (Option<Point>) query);
+        "cb" : <Callback as candid::CandidType>::ty();
+        "fire and forget" : candid::func!((Vec<u8>) -> () oneway)
+    });
+    #[derive(CandidType)]
+    pub struct Refs {
+        pub f: Callback,
+        pub s: Svc,
+    }
+}
+
+fn rec(fs: Vec<(&str, RType)>) -> RType {
+    RType::record(fs.into_iter().map(|(n, t)| (label_hash(n), t)).collect())
+}
+fn var(fs: Vec<(&str, RType)>) -> RType {
+    RType::variant(fs.into_iter().map(|(n, t)| (label_hash(n), t)).collect())
+}
+
+/// The hand-written Candid meaning of each Rust type above (the spec's Rust mapping as documented
+/// in candid's derive: struct = record of field-name hashes, tuple struct = positional record, enum
+/// = variant, unit case = null, newtype case = payload, Option = opt, Vec = vec, Box = transparent,
+/// u128 = nat, () = null, Result = variant {Ok; Err}).
+struct Export {
+    name: &'static str,
+    add: fn(&mut TypeContainer) -> Type,
+    ty: fn() -> Type,
+    expected: fn() -> (REnv, RType),
+}
+
+fn point() -> RType {
+    rec(vec![("x", RType::Int32), ("y", RType::Int32)])
+}
+fn color() -> RType {
+    var(vec![
+        ("Red", RType::Null),
+        ("Green", RType::Null),
+        ("Blue", RType::Nat8),
+        ("Custom", rec(vec![("r", RType::Nat8), ("g", RType::Nat8)])),
+        ("Pair", RType::tuple(vec![RType::Nat8, RType::Bool])),
+    ])
+}
+fn wrapper(t: RType) -> RType {
+    rec(vec![("inner", t), ("tag", RType::Text)])
+}
+fn no_env(t: RType) -> (REnv, RType) {
+    (REnv::new(), t)
+}
+
+macro_rules! export {
+    ($name:expr, $t:ty, $expected:expr) => {
+        Export {
+            name: $name,
+            add: |c| c.add::<$t>(),
+            ty: || <$t as candid::CandidType>::ty(),
+            expected: $expected,
+        }
+    };
+}
+
+fn list_env() -> REnv {
+    // T0 = record { head : int64; tail : opt T0 }
+    REnv(vec![rec(vec![("head", RType::Int64), ("tail", RType::opt(RType::Ref(0)))])])
+}
+fn ab_env() -> REnv {
+    // T0 = A = record { b : opt T1 }; T1 = B = record { a : vec T0; n : nat }
+    REnv(vec![
+        rec(vec![("b", RType::opt(RType::Ref(1)))]),
+        rec(vec![("a", RType::vec(RType::Ref(0))), ("n", RType::Nat)]),
+    ])
+}
+fn tree_env() -> REnv {
+    REnv(vec![var(vec![
+        ("Leaf", RType::Nat),
+        ("Node", RType::tuple(vec![RType::Ref(0), RType::Ref(0)])),
+    ])])
+}
+fn callback() -> RType {
+    RType::func(vec![point()], vec![color()], vec![Mode::Query])
+}
+
+fn exports() -> Vec<Export> {
+    use rust_types::*;
+    vec![
+        export!("Point", Point, || no_env(point())),
+        export!("Color", Color, || no_env(color())),
+        export!("Wrapper<u8>", Wrapper<u8>, || no_env(wrapper(RType::Nat8))),
+        export!("Wrapper<Wrapper<String>>", Wrapper<Wrapper<String>>, || no_env(wrapper(wrapper(RType::Text)))),
+        export!("Both", Both, || no_env(rec(vec![
+            ("a", wrapper(RType::Nat8)),
+            ("b", wrapper(RType::Text)),
+            ("c", wrapper(RType::Nat8)),
+        ]))),
+        export!("Items", Items, || no_env(rec(vec![
+            ("a", rec(vec![("id", RType::Nat32)])),
+            ("b", rec(vec![("name", RType::Text)])),
+            ("v", RType::vec(rec(vec![("id", RType::Nat32)]))),
+        ]))),
+        export!("List", List, || (list_env(), RType::Ref(0))),
+        export!("Option<List>", Option<List>, || (list_env(), RType::opt(RType::Ref(0)))),
+        export!("A", A, || (ab_env(), RType::Ref(0))),
+        export!("B", B, || (ab_env(), RType::Ref(1))),
+        export!("Vec<A>", Vec<A>, || (ab_env(), RType::vec(RType::Ref(0)))),
+        export!("Nest", Nest, || no_env(rec(vec![
+            ("o", RType::opt(RType::opt(RType::vec(RType::opt(RType::Nat16))))),
+            ("v", RType::vec(RType::vec(RType::Bool))),
+        ]))),
+        export!("Tup", Tup, || no_env(RType::tuple(vec![
+            RType::tuple(vec![RType::Nat8, RType::Text]),
+            RType::tuple(vec![RType::Int, RType::tuple(vec![RType::Bool, RType::Float64])]),
+        ]))),
+        export!("(Point, Color)", (Point, Color), || no_env(RType::tuple(vec![point(), color()]))),
+        export!("Result<Point, String>", Result<Point, String>, || no_env(var(vec![("Ok", point()), ("Err", RType::Text)]))),
+        export!("Tree", Tree, || (tree_env(), RType::Ref(0))),
+        export!("Box<Tree>", Box<Tree>, || (tree_env(), RType::Ref(0))),
+        export!("Kw", Kw, || no_env(rec(vec![
+            ("record", RType::Nat8),
+            ("service", RType::Nat16),
+            ("with space", RType::Nat32),
+            ("quo\"te\\", RType::Nat64),
+            ("nat", RType::Nat),
+        ]))),
+        export!("KwBool", KwBool, || no_env(rec(vec![("true", RType::Bool), ("false", RType::Bool)]))),
+        export!("Misc", Misc, || no_env(rec(vec![
+            ("p", RType::Principal),
+            ("r", RType::Reserved),
+            ("blob", RType::vec(RType::Nat8)),
+            ("unit", RType::Null),
+            ("f", RType::Float32),
+            ("big", RType::Nat),
+        ]))),
+        export!("Eithers", Eithers, || no_env(rec(vec![
+            ("x", var(vec![("Left", RType::Nat8), ("Right", RType::Text)])),
+            ("y", var(vec![("Left", point()), ("Right", color())])),
+        ]))),
+        export!("Unit", Unit, || no_env(RType::Record(vec![]))),
+        export!("Refs", Refs, || no_env(rec(vec![
+            ("f", callback()),
+            ("s", RType::service(vec![
+                ("get".to_string(), RType::func(vec![RType::Nat], vec![RType::opt(point())], vec![Mode::Query])),
+                ("cb".to_string(), callback()),
+                ("fire and forget".to_string(), RType::func(vec![RType::vec(RType::Nat8)], vec![], vec![Mode::Oneway])),
+            ])),
+        ]))),
+    ]
+}
+
+fn eq2(e1: &REnv, t1: &RType, e2: &REnv, t2: &RType) -> bool {
+    let mut all = e1.clone();
+    let off = all.append(e2);
+    requal(&all, t1, &t2.shift_refs(off))
+}
+
+fn one_export(ctx: &mut Ctx, ex: &Export, with: &[&Export]) {
+    // several types may share one container (names must stay apart)
+    let mut c = TypeContainer::new();
+    let mut roots: Vec<(&Export, Type)> = Vec::new();
+    for e in with.iter().chain(std::iter::once(&ex)) {
+        let root = match catch(|| (e.add)(&mut c)) {
+            Ok(t) => t,
+            Err(p) => {
+                ctx.violation(
+                    &format!("export|panic|{}|{}", stable_location(&p.location), e.name),
+                    &format!("TypeContainer::add::<{}> panicked: {}", e.name, p.message),
+                    json!({"rust_type": e.name}),
+                );
+                return;
+            }
+        };
+        roots.push((e, root));
+    }
+    let env: TypeEnv = c.env.clone();
+    let names: Vec<&str> = roots.iter().map(|r| r.0.name).collect();
+    let printed = match catch(|| candid::pretty::candid::compile(&env, &None)) {
+        Ok(t) => t,
+        Err(p) => {
+            ctx.violation(
+                &format!("export|compile-panic|{}", stable_location(&p.location)),
+                &format!("compile panicked on the environment of {names:?}: {}", p.message),
+                json!({"rust_types": names}),
+            );
+            return;
+        }
+    };
+    if candid::pretty::candid::compile(&env, &None) != printed {
+        ctx.violation("export|nondeterministic", "two calls gave different text", json!({"rust_types": names, "printed": printed}));
+    }
+    let input = json!({"rust_types": names, "printed": clip(&printed)});
+    // the container's own view of each root must be the hand-written meaning of the Rust type
+    let mut conv = FromCandid::new(&env);
+    for (e, root) in &roots {
+        let (xenv, xt) = (e.expected)();
+        match conv.ty(root) {
+            Err(m) => ctx.violation(
+                &format!("export|unconvertible|{}", e.name),
+                &format!("container type of {} cannot be read: {m}", e.name),
+                input.clone(),
+            ),
+            Ok(rt) => {
+                if !eq2(&xenv, &xt, &conv.out, &rt) {
+                    ctx.violation(
+                        &format!("export|container-differs|{}", e.name),
+                        &format!(
+                            "TypeContainer::add::<{}>() = {} in env [{}], expected {} in env [{}]",
+                            e.name, rt, conv.out, xt, xenv
+                        ),
+                        input.clone(),
+                    );
+                }
+            }
+        }
+        // and T::ty() (with Knot nodes) must mean the same
+        let direct = (e.ty)();
+        let empty = TypeEnv::new();
+        let mut c2 = FromCandid::new(&empty);
+        match c2.ty(&direct) {
+            Ok(rt) => {
+                if !eq2(&xenv, &xt, &c2.out, &rt) {
+                    ctx.violation(
+                        &format!("export|ty-differs|{}", e.name),
+                        &format!("{}::ty() = {} in env [{}], expected {} in env [{}]", e.name, rt, c2.out, xt, xenv),
+                        input.clone(),
+                    );
+                }
+            }
+            Err(m) => ctx.violation(
+                &format!("export|unconvertible-ty|{}", e.name),
+                &format!("{}::ty() cannot be read: {m}", e.name),
+                input.clone(),
+            ),
+        }
+    }
+    // printed environment parses, checks, and every named definition is unchanged
+    match parse_check(&printed) {
+        Err(e) => ctx.violation(
+            &{
+                let c = reparse_class(&e);
+                if c.starts_with("name-true/false") || c.starts_with("NUL-") {
+                    format!("export|reparse-fails|{c}")
+                } else {
+                    format!("export|reparse-fails|{c}|{}", ex.name)
+                }
+            },
+            &format!("printed environment of {names:?} is rejected: {}", e.message().lines().next().unwrap_or("")),
+            input.clone(),
+        ),
+        Ok((env2, _, _)) => {
+            let k1: Vec<&String> = env.0.keys().collect();
+            let k2: Vec<&String> = env2.0.keys().collect();
+            if k1 != k2 {
+                ctx.violation(
+                    &format!("export|def-names-differ|{}", ex.name),
+                    &format!("definitions before {k1:?} and after {k2:?} printing"),
+                    input.clone(),
+                );
+                return;
+            }
+            let mut a = FromCandid::new(&env);
+            let mut b = FromCandid::new(&env2);
+            for name in env.0.keys() {
+                let v: Type = candid::types::TypeInner::Var(name.clone()).into();
+                match (a.ty(&v), b.ty(&v)) {
+                    (Ok(x), Ok(y)) => {
+                        // compare after both conversions are complete enough: conversions are incremental,
+                        // so compare at the end
+                        let _ = (x, y);
+                    }
+                    (x, y) => {
+                        ctx.violation(
+                            &format!("export|unconvertible-def|{}", ex.name),
+                            &format!("definition {name}: {:?} / {:?}", x.err(), y.err()),
+                            input.clone(),
+                        );
+                        return;
+                    }
+                }
+            }
+            for name in env.0.keys() {
+                let (Some(i), Some(j)) = (a.var_index(name), b.var_index(name)) else { continue };
+                if !eq2(&a.out, &RType::Ref(i), &b.out, &RType::Ref(j)) {
+                    ctx.violation(
+                        &format!("export|def-differs|{}|{}", ex.name, name),
+                        &format!(
+                            "definition {name} before printing: {} ; after: {}",
+                            crate::mon::common::shape(&a.out, &RType::Ref(i), 4),
+                            crate::mon::common::shape(&b.out, &RType::Ref(j), 4)
+                        ),
+                        input.clone(),
+                    );
+                }
+            }
+            ctx.count("agree:export");
+        }
+    }
+    ctx.count(&format!("cover:export:{}", ex.name));
+    ctx.nontrivial(hash_str(&format!("export:{names:?}")));
+}
+
+pub fn run(ctx: &mut Ctx) {
+    let base = ProgCfg {
+        docs: DocKind::None,
+        ..ProgCfg::default()
+    };
+    ctx.cases("default-programs", 0.30, |ctx, rng| one_program(ctx, rng, &base));
+    ctx.cases("random-config-programs", 0.40, |ctx, rng| {
+        let cfg = ProgCfg::random(rng);
+        one_program(ctx, rng, &cfg)
+    });
+    let hostile = ProgCfg {
+        hostile_names: true,
+        case_collisions: true,
+        docs: DocKind::Hostile,
+        ..ProgCfg::default()
+    };
+    ctx.cases("hostile-names-and-docs", 0.20, |ctx, rng| one_program(ctx, rng, &hostile));
+    let nul = ProgCfg {
+        hostile_names: true,
+        nul_names: true,
+        max_defs: 3,
+        ..ProgCfg::default()
+    };
+    ctx.cases("nul-in-names", 0.04, |ctx, rng| one_program(ctx, rng, &nul));
+    let exs = exports();
+    ctx.cases("rust-exports", 0.06, |ctx, rng| {
+        let i = rng.usize(exs.len());
+        // alone, or after one or two other types in the same container
+        let mut with: Vec<&Export> = Vec::new();
+        for _ in 0..rng.usize(3) {
+            let e = &exs[rng.usize(exs.len())];
+            // the type with fields named true/false is only exported on its own (it trips a known printer defect)
+            if e.name != "KwBool" {
+                with.push(e);
+            }
+        }
+        one_export(ctx, &exs[i], &with);
+    });
+}
